@@ -603,7 +603,7 @@ Linear_System<Row>::gauss(const dimension_type n_lines_or_equalities) {
       // equalities following it, so that all the elements on the j-th
       // column in these rows become 0.
       for (dimension_type k = i + 1; k < n_lines_or_equalities; ++k) {
-        if (rows[k].expr.get(Variable(j - 1)) != 0) {
+        if (rows[k].expr.get(j) != 0) {
           rows[k].linear_combine(rows[rank], j);
           changed = true;
         }
